@@ -117,10 +117,18 @@ fn observe_range(from: i64, to: i64, inclusive: bool) {
     }
 }
 
+fn announce_stage(name: &'static str) {
+    let stdout = std::io::stdout();
+    let mut out = stdout.lock();
+    let _ = writeln!(out, "{}", serde_json::json!({"notice": "stage", "name": name}));
+    let _ = out.flush();
+}
+
 pub fn worker_main() {
     // silence panic messages: they are reported through the protocol
     std::panic::set_hook(Box::new(|_| {}));
     rooc::verif_hooks::set_range_observer(Some(observe_range));
+    crate::props::stages::set_stage_announcer(Some(announce_stage));
     let stdin = std::io::stdin();
     let stdout = std::io::stdout();
     for line in stdin.lock().lines() {
@@ -144,6 +152,7 @@ pub fn worker_main() {
 }
 
 struct Worker {
+    served: usize,
     child: Child,
     stdin: ChildStdin,
     rx: Receiver<String>,
@@ -153,7 +162,8 @@ struct Worker {
 
 impl Worker {
     fn spawn() -> Worker {
-        let exe = std::env::current_exe().expect("current exe");
+        // /proc/self/exe stays valid when the binary on disk is replaced while a run is in progress
+        let exe = std::path::PathBuf::from(format!("/proc/{}/exe", std::process::id()));
         // 4 GiB of address space: a request for billions of elements fails instead of swapping
         let mut child = Command::new("sh")
             .arg("-c")
@@ -194,7 +204,7 @@ impl Worker {
             }
             let _ = done_tx.send(());
         });
-        Worker { child, stdin, rx, stderr, stderr_done }
+        Worker { served: 0, child, stdin, rx, stderr, stderr_done }
     }
 
     /// why the runtime says the process ended (read after the process is gone)
@@ -228,6 +238,8 @@ struct Answer {
     /// highest RANGE_LEVELS threshold the worker announced for this input (0 = none), and the range
     range_level: usize,
     range_notice: Option<String>,
+    /// the solver stage the worker had announced before it answered, died or went silent
+    solver_stage: Option<String>,
 }
 
 const WATCHDOG_S: u64 = 20;
@@ -237,24 +249,38 @@ const AFTER_NOTICE_S: u64 = 4;
 fn ask(src: &str) -> Answer {
     WORKER.with(|w| {
         let mut w = w.borrow_mut();
+        // a worker is replaced after 2000 inputs, so that memory that the compiler or a solver keeps
+        // between inputs cannot add up to the address-space limit over a long run
+        if w.as_ref().is_some_and(|x| x.served >= 2000) {
+            if let Some(mut old) = w.take() {
+                let _ = old.child.kill();
+                let _ = old.child.wait();
+            }
+        }
         if w.is_none() {
             *w = Some(Worker::spawn());
         }
         let worker = w.as_mut().unwrap();
+        worker.served += 1;
         let line = serde_json::to_string(src).unwrap();
         if writeln!(worker.stdin, "{line}").and_then(|_| worker.stdin.flush()).is_err() {
             let status = worker.last_words();
             *w = None;
-            return Answer { end: End::Died(status), range_level: 0, range_notice: None };
+            return Answer { end: End::Died(status), range_level: 0, range_notice: None, solver_stage: None };
         }
         let mut range_notice = None;
         let mut range_level = 0usize;
+        let mut solver_stage: Option<String> = None;
         let mut deadline = std::time::Instant::now() + Duration::from_secs(WATCHDOG_S);
         loop {
             let left = deadline.saturating_duration_since(std::time::Instant::now());
             match worker.rx.recv_timeout(left) {
                 Ok(l) => {
                     let v: serde_json::Value = serde_json::from_str(&l).unwrap_or(serde_json::Value::Null);
+                    if v["notice"] == "stage" {
+                        solver_stage = v["name"].as_str().map(|s| s.to_string());
+                        continue;
+                    }
                     if v["notice"].is_string() {
                         range_notice = Some(format!("{}..{} ({} elements so far)", v["from"], v["to"], v["elements"]));
                         range_level = range_level.max(v["level"].as_u64().unwrap_or(0) as usize);
@@ -268,18 +294,18 @@ fn ask(src: &str) -> Answer {
                         panicked_in: v["panicked_in"].as_str().map(|s| s.to_string()),
                         panic: v["panic"].as_str().map(|s| s.to_string()),
                     };
-                    return Answer { end, range_level, range_notice };
+                    return Answer { end, range_level, range_notice, solver_stage };
                 }
                 Err(std::sync::mpsc::RecvTimeoutError::Timeout) => {
                     let _ = worker.child.kill();
                     let _ = worker.child.wait();
                     *w = None;
-                    return Answer { end: End::Hang, range_level, range_notice };
+                    return Answer { end: End::Hang, range_level, range_notice, solver_stage };
                 }
                 Err(std::sync::mpsc::RecvTimeoutError::Disconnected) => {
                     let status = worker.last_words();
                     *w = None;
-                    return Answer { end: End::Died(status), range_level, range_notice };
+                    return Answer { end: End::Died(status), range_level, range_notice, solver_stage };
                 }
             }
         }
@@ -385,6 +411,7 @@ impl Prop for C18 {
         let range_class = |what: &str| format!("range-of-user-size-written-out:{what}");
         let level = answer.range_level;
         let notice = answer.range_notice.clone().unwrap_or_default();
+        let in_solver = answer.solver_stage.as_deref().map(|s| format!(":in-{s}")).unwrap_or_default();
         match answer.end {
             End::Report { reached, panicked_in, panic } => match panicked_in {
                 Some(stage) => {
@@ -414,14 +441,17 @@ impl Prop for C18 {
                 } else if cause == "allocation-failure" && level >= 2 {
                     Outcome::fail(range_class("out-of-memory"), format!("worker died ({status}) after announcing range {notice}\ninput:\n{shown}"))
                 } else {
-                    Outcome::fail(format!("worker-process-died:{cause}"), format!("{status}\nrange announced: {notice}\ninput:\n{shown}"))
+                    Outcome::fail(format!("worker-process-died:{cause}{in_solver}"), format!("{status}\nrange announced: {notice}\ninput:\n{shown}"))
                 }
             }
             End::Hang => {
                 if level >= 2 {
                     Outcome::fail(range_class("not-finished"), format!("no answer after announcing range {notice}\ninput:\n{shown}"))
                 } else {
-                    Outcome::fail(format!("no-answer-within-{WATCHDOG_S}s"), format!("range announced: {notice}\ninput:\n{shown}"))
+                    // silence inside the MILP / LP solver: is the model one of the two classes on which
+                    // the microlp dependency is recorded never to return (C05, C15)?
+                    let class = if in_solver == ":in-auto_solver" && microlp_hang_class(&src) { ":microlp-hang-class" } else { "" };
+                    Outcome::fail(format!("no-answer-within-{WATCHDOG_S}s{in_solver}{class}"), format!("range announced: {notice}\ninput:\n{shown}"))
                 }
             }
         }
@@ -453,4 +483,23 @@ pub fn dump_corpus(dir: &str) {
         put(case.text());
         kept += 1;
     }
+}
+
+/// Compiles the input in-process (the worker had already passed these stages) and asks the exact
+/// oracle whether the linear model belongs to the recorded microlp hang classes.
+fn microlp_hang_class(src: &str) -> bool {
+    let compiled = std::panic::catch_unwind(|| {
+        let model = rooc::RoocParser::new(src.to_string()).parse_and_transform(vec![], &indexmap::IndexMap::new()).ok()?;
+        rooc::Linearizer::linearize(model).ok()
+    });
+    let Ok(Some(lin)) = compiled else { return false };
+    if lin.variables().len() > 12 || lin.constraints().len() > 24 {
+        return false;
+    }
+    let case = crate::gen::lin::LinCase::from_rooc(&lin);
+    if !crate::props::c05::has_free_var(&case) {
+        return false;
+    }
+    let truth = crate::oracle::rat::solve_milp(&case.to_problem());
+    crate::props::c05::hang_prone(&case, &truth)
 }
